@@ -429,12 +429,40 @@ func checkHistory(c CaseHist, which string) (*vkit.Failure, vkit.Meta) {
 							}
 						}
 					}
+					if len(path) > 0 && info != nil && !contains(info.AfterNodes, key) {
+						// the graph node can run again later in the same call; an interrupt of that new nested
+						// execution right at its beginning (a successor of START reported as interrupt-before) says
+						// nothing about the earlier, completed nested execution this event belongs to
+						for _, b := range info.BeforeNodes {
+							for _, e := range sp.Edges {
+								if e.From == gkit.Start && e.To == b {
+									info = &compose.InterruptInfo{AfterNodes: []string{key}}
+								}
+							}
+							for _, br := range sp.Branches {
+								if br.From == gkit.Start && contains(br.Targets, b) {
+									info = &compose.InterruptInfo{AfterNodes: []string{key}}
+								}
+							}
+						}
+					}
+					if len(path) > 0 && ref.IsOptionalTag(ev.Node) {
+						continue // may complete after its nested run returned
+					}
 					if info == nil || !contains(info.AfterNodes, key) {
 						return &vkit.Failure{Kind: "after-node-not-reported", Sig: "after-node-not-reported",
 							Msg: fmt.Sprintf("node %s (interrupt-after) completed in call %d, which was interrupted, but the interrupt info at %v does not list it under AfterNodes", ev.Node, ev.Call, path)}
 					}
-					// nothing that consumed this output may start later in the same call
-					if len(ev.Out) >= 4 {
+					// nothing that consumed this output may start later in the same call.  When the node produced
+					// the very same output before (loop over constant values) a parallel consumer of the older
+					// output cannot be told apart: the rule is not applied then.
+					seenBefore := false
+					for _, earlier := range events[:i] {
+						if earlier.Phase == "end" && earlier.Node == ev.Node && earlier.Out == ev.Out {
+							seenBefore = true
+						}
+					}
+					if len(ev.Out) >= 4 && !seenBefore {
 						for _, later := range events[i+1:] {
 							if later.Call != ev.Call {
 								break
